@@ -10,6 +10,10 @@ def run(ctx):
                     "Model/Kernels.v, Props/C07Gen.v; and by correspondence A)",
                     "tools/translate_kernels.py: the construct-by-construct mapping of the op_*.rs statement forms to "
                     "while_lt / load_dense / load / read1 / write_dense / store / write1 / r_* / m_* (DESIGN)",
+                    "coq/Model/MemIntrinsics.v: what each load / store intrinsic (and ptr::read / ptr::write) touches — kind, bytes, "
+                    "alignment requirement (~100 rows; the rows the source uses are cross-checked against the pinned stdarch's Rust "
+                    "bodies by the translator) and the sizes of the vector types; tools/translate_mem.py: core_simd_api.rs defaults "
+                    "and the impls' load / write -> Gen/GenSimdApi.v (Props/C07Mem.v)",
                     "harness/cfh (symbolic SimdRegister/Math instances), ocaml/driver_sym.ml, extraction (ExtrOcamlBasic only)"]
     ctx.assumptions += ["index arithmetic on nat: slices are at most isize::MAX bytes so i + 8L cannot wrap",
                         "the compiled code touches only what the source says (observed with guard pages in correspondence C, not proved)"]
@@ -26,6 +30,22 @@ def run(ctx):
                                       "files": gk.get("files", [])}
     ok = ctx.prove("Props/C07Gen.v")
     ctx.extra["generated_kernels"]["equal_to_model"] = bool(ok)
+    # Tie 1, memory half (translator): regenerate Gen/GenSimdApi.v from core_simd_api.rs (the trait's default load_dense /
+    # write_dense / elements_per_dense / elements_per_lane / filled_dense / zeroed_dense, statement by statement) and from
+    # the `load` / `write` of every impl_*.rs (the one load / store intrinsic on the pointer given + `type Register`), then
+    # re-check that the defaults ARE Model/SimdApi.v's, that nobody overrides them, and that every register access is an
+    # unaligned whole-register access = [lanes] elements of the lane-level model (Model/MemIntrinsics.v is the trusted
+    # reading of the intrinsics).  Failures are reported like the two above; the run continues to the correspondences.
+    facts = ctx.translate(steps=("mem",))
+    gm = (facts or {}).get("mem") or {}
+    ctx.extra["generated_memory"] = {"defaults_translated": gm.get("defaults_translated", []),
+                                     "defaults_untranslated": gm.get("defaults_untranslated", []),
+                                     "overrides": gm.get("overrides", []), "entries": len(gm.get("entries", [])),
+                                     "untranslated": gm.get("untranslated", []),
+                                     "intrinsics_used": gm.get("intrinsics_used", []),
+                                     "stdarch_class": gm.get("stdarch_class", {})}
+    ok = ctx.prove("Props/C07Mem.v")
+    ctx.extra["generated_memory"]["proved"] = bool(ok)
     symrun.run(ctx, configs=("stable",) if ctx.tier == "quick" else ("stable", "nightly"))
     from checks import exprun
     exprun.check_bounds(ctx)
